@@ -80,3 +80,69 @@ func Verif_C07_split_exact() {
 	verif_assert(verifBalOf(c07To, vDenom).Equal(U), "recipient holds exactly the split amount")
 	verif_reach("split checked")
 }
+
+// ---- move: MoveAvailableVesting (everything locked) and MoveAvailableVestingByDenoms (the listed denominations, in any order,
+// possibly naming a denomination in which nothing is locked) over a sender vesting two denominations.
+
+const c07Denom2 = "uatom"
+
+func verifC07Sender2(ctx sdk.Context) *vestingtypes.ContinuousVestingAccount {
+	ov1 := verif_int_range("OV1", "1", "1e30")
+	ov2 := verif_int_range("OV2", "1", "1e30")
+	base := W.auth.NewAccountWithAddress(ctx, verifAddr(c07From)).(*authtypes.BaseAccount)
+	ov := sdk.NewCoins(sdk.NewCoin(vDenom, ov1), sdk.NewCoin(c07Denom2, ov2))
+	cva := vestingtypes.NewContinuousVestingAccountRaw(vestingtypes.NewBaseVestingAccount(base, ov, c07Start+c07Len), c07Start)
+	W.auth.SetAccount(ctx, cva)
+	W.bank.fund(verifAddr(c07From), vDenom, ov1.Add(verif_int_range("free1", "0", "1e30")))
+	W.bank.fund(verifAddr(c07From), c07Denom2, ov2.Add(verif_int_range("free2", "0", "1e30")))
+	return cva
+}
+
+func Verif_C07_move() {
+	k := verifVestingKeeper()
+	grid := []int64{-5, c07Len / 2, c07Len / 4}
+	el := grid[verif_choice("elapsed", len(grid))]
+	ctx := verifCtx(verifUnix(c07Start + el))
+	verifSetParams(k, ctx)
+	sender := verifC07Sender2(ctx)
+	denoms := []string{vDenom, c07Denom2}
+	lockedBefore := sender.LockedCoins(ctx.BlockTime())
+	spendBefore := W.bank.SpendableCoins(ctx, verifAddr(c07From))
+	// which denominations the message selects
+	lists := [][]string{{vDenom}, {c07Denom2}, {vDenom, c07Denom2}, {c07Denom2, vDenom}, {"unknown", vDenom}, {vDenom, "unknown", c07Denom2}, {c07Denom2, "unknown"}}
+	sel := map[string]bool{}
+	var err error
+	which := verif_choice("message", len(lists)+1)
+	verif_knob("assert_timeout_ms", 120000)
+	if which == len(lists) {
+		sel[vDenom], sel[c07Denom2] = true, true
+		_, err = NewMsgServerImpl(k).MoveAvailableVesting(sdk.WrapSDKContext(ctx), &types.MsgMoveAvailableVesting{FromAddress: c07From, ToAddress: c07To})
+	} else {
+		for _, d := range lists[which] {
+			sel[d] = true
+		}
+		_, err = NewMsgServerImpl(k).MoveAvailableVestingByDenoms(sdk.WrapSDKContext(ctx), &types.MsgMoveAvailableVestingByDenoms{FromAddress: c07From, ToAddress: c07To, Denoms: lists[which]})
+	}
+	verif_assert(err == nil, "locked coins of the selected denominations can always be moved")
+	if err != nil {
+		return
+	}
+	s2 := W.auth.GetAccount(ctx, verifAddr(c07From)).(*vestingtypes.ContinuousVestingAccount)
+	r := W.auth.GetAccount(ctx, verifAddr(c07To)).(*vestingtypes.ContinuousVestingAccount)
+	verif_assert(r != nil, "the recipient vesting account exists")
+	verif_assert(r.EndTime == sender.EndTime, "recipient keeps the sender's end time")
+	lockedAfter := s2.LockedCoins(ctx.BlockTime())
+	rLocked := r.LockedCoins(ctx.BlockTime())
+	for _, d := range denoms {
+		if sel[d] {
+			verif_assert(lockedAfter.AmountOf(d).IsZero(), "move: the sender's locked coins drop to zero for every selected denomination")
+			verif_assert(rLocked.AmountOf(d).Equal(lockedBefore.AmountOf(d)), "move: the recipient's locked coins equal what the sender had locked, per selected denomination")
+			verif_assert(verifBalOf(c07To, d).Equal(lockedBefore.AmountOf(d)), "move: the recipient holds exactly the moved amount")
+		} else {
+			verif_assert(lockedAfter.AmountOf(d).Equal(lockedBefore.AmountOf(d)), "move: a denomination that was not selected stays locked at the sender")
+			verif_assert(rLocked.AmountOf(d).IsZero() && verifBalOf(c07To, d).IsZero(), "move: the recipient gets nothing of a denomination that was not selected")
+		}
+		verif_assert(W.bank.SpendableCoins(ctx, verifAddr(c07From)).AmountOf(d).Equal(spendBefore.AmountOf(d)), "move: the sender's spendable balance is unchanged")
+	}
+	verif_reach("move checked")
+}
